@@ -34,7 +34,11 @@ func streamStore(t *testing.T, o *Out) {
 	for i := 0; i < n; i++ {
 		c := newStCase(e, r)
 		g := newStGen(c, []int{0})
-		g.history(5+r.Intn(36), stDefaultWeights)
+		if stIsLargeHistory(r, i) {
+			g.largeHistory()
+		} else {
+			g.history(5+r.Intn(36), stDefaultWeights)
+		}
 		c.emit(fmt.Sprintf("h%d", i), c.okWrites >= 1 && c.okLists >= 1)
 	}
 }
